@@ -432,6 +432,123 @@ pub fn generate(repo: &PathBuf) -> Result<String, String> {
         }
     }
 
+    // ---- get_record_from_bytes: a decryption failure means "no record" (None), not "take the raw bytes"
+    let grb = impl_fn(&file, "NodeRecordStore", None, "get_record_from_bytes")?;
+    let gstop2: Vec<&str> = stop.iter().copied().filter(|x| *x != "get_record_from_bytes").collect();
+    struct Arms2(Vec<(String, Vec<(String, String)>)>);
+    impl<'ast> Visit<'ast> for Arms2 {
+        fn visit_expr_match(&mut self, m: &'ast syn::ExprMatch) {
+            self.0.push((ts(&m.expr), m.arms.iter().map(|a| (ts(&a.pat), ts(&a.body))).collect()));
+            syn::visit::visit_expr_match(self, m);
+        }
+    }
+    let mut a2 = Arms2(vec![]);
+    let grb_blocks = with_private_helpers(&file, &grb.block, &gstop2);
+    for blk in &grb_blocks {
+        a2.visit_block(blk);
+    }
+    let whole: String = grb_blocks.iter().map(|b| ts(*b)).collect::<Vec<_>>().join(" ");
+    let decrypt_failure_skips = match a2.0.iter().find(|(scrut, _)| scrut.contains(".decrypt(")) {
+        Some((_, arms)) => {
+            let err = arms.iter().find(|(p, _)| p.starts_with("Err")).ok_or("get_record_from_bytes: no Err arm on cipher.decrypt(..)")?;
+            let body = err.1.trim_end_matches('}').trim_end_matches(';').to_string();
+            if body.ends_with("None") || body.ends_with("returnNone") {
+                true
+            } else if !err.1.contains("None") && !err.1.contains("return") {
+                // the failure falls through to the common `Some(record)`: the raw file bytes are handed back
+                false
+            } else {
+                return Err(format!("get_record_from_bytes: cannot classify the decrypt-failure arm `{}`", err.1));
+            }
+        }
+        None => {
+            // `.decrypt(..).ok()?` / `let Ok(value) = … else { return None; }`
+            if whole.contains(".decrypt(") && (whole.contains(".ok()?") || whole.contains("else{returnNone")) {
+                true
+            } else {
+                return Err("get_record_from_bytes: expected a match (or `?` / let-else) on cipher.decrypt(..)".into());
+            }
+        }
+    };
+
+    // ---- lib.rs send_local_swarm_cmd: the notification waits for room on the channel (spawned `send().await`)
+    let libf = parse_file(&repo.join("ant-networking/src/lib.rs"))?;
+    let slc = free_fn(&libf, "send_local_swarm_cmd")?;
+    let c = calls_in_blocks(&with_private_helpers(&libf, &slc.block, &[]));
+    let body = ts(&*slc.block);
+    let waits = c.paths.iter().any(|p| p == "spawn") && c.methods.iter().any(|m| m == "send") && body.contains(".await");
+    let drops = c.methods.iter().any(|m| m == "try_send");
+    let notification_sender_waits = match (waits, drops) {
+        (true, false) => true,
+        (false, true) => false,
+        _ => return Err(format!("send_local_swarm_cmd: expected a spawned `sender.send(cmd).await` (or, weaker, `try_send`), methods {:?}", c.methods)),
+    };
+
+    // ---- cmd.rs: the `PutLocalRecord` handler derives the RecordType from the record header kind
+    // (glue between the command and `put_verified`): table wire tag of the kind ↦ Chunk | Scratchpad | NonChunk | refused
+    let proto = parse_file(&repo.join("ant-protocol/src/storage/header.rs"))?;
+    let ser = impl_fn(&proto, "RecordKind", Some("Serialize"), "serialize")?;
+    struct Arms(Vec<(String, Vec<(String, String)>)>); // (scrutinee, [(pattern, body)])
+    impl<'ast> Visit<'ast> for Arms {
+        fn visit_expr_match(&mut self, m: &'ast syn::ExprMatch) {
+            self.0.push((ts(&m.expr), m.arms.iter().map(|a| (ts(&a.pat), ts(&a.body))).collect()));
+            syn::visit::visit_expr_match(self, m);
+        }
+    }
+    let mut a = Arms(vec![]);
+    a.visit_block(&ser.block);
+    let mut tags: Vec<(String, u32)> = vec![];
+    for (_, arms) in &a.0 {
+        for (pat, body) in arms {
+            let name = pat.rsplit("::").next().unwrap_or("").to_string();
+            if let Some(rest) = body.split("serialize_u32(").nth(1) {
+                let n: u32 = rest.split(')').next().unwrap_or("").parse().map_err(|_| format!("RecordKind::serialize: tag of {name} is not a literal"))?;
+                tags.push((name, n));
+            }
+        }
+    }
+    if tags.is_empty() {
+        return Err("RecordKind::serialize: no `Self::X => serializer.serialize_u32(n)` arms".into());
+    }
+    let cmd_file = parse_file(&repo.join("ant-networking/src/cmd.rs"))?;
+    let mut a = Arms(vec![]);
+    a.visit_file(&cmd_file);
+    let kind_matches: Vec<&(String, Vec<(String, String)>)> = a.0.iter()
+        .filter(|(scrut, arms)| scrut.ends_with(".kind") && arms.iter().any(|(p, b)| p.contains("RecordKind::") && b.contains("RecordType::")))
+        .collect();
+    let arms = match kind_matches.as_slice() {
+        [(_, arms)] => arms,
+        other => return Err(format!("cmd.rs: expected exactly one `match <header>.kind {{ RecordKind::.. => RecordType::.. }}` (PutLocalRecord), found {}", other.len())),
+    };
+    // 0 = Chunk, 1 = Scratchpad, 2 = NonChunk(content hash); None = refused (InCorrectRecordHeader)
+    let mut table: Vec<(u32, Option<u32>)> = vec![];
+    for (pat, body) in arms {
+        let out = if body.contains("RecordType::NonChunk") {
+            if !body.contains("from_content") {
+                return Err(format!("cmd.rs PutLocalRecord: NonChunk not built from the content hash in `{body}`"));
+            }
+            Some(2)
+        } else if ["RecordType::Chunk", "Ok(RecordType::Chunk)"].contains(&body.replace(['{', '}'], "").as_str()) {
+            Some(0)
+        } else if ["RecordType::Scratchpad", "Ok(RecordType::Scratchpad)"].contains(&body.replace(['{', '}'], "").as_str()) {
+            Some(1)
+        } else if body.contains("InCorrectRecordHeader") && body.contains("Err(") {
+            None
+        } else {
+            return Err(format!("cmd.rs PutLocalRecord: cannot classify the arm `{pat} => {body}`"));
+        };
+        for alt in pat.split('|') {
+            let name = alt.rsplit("::").next().unwrap_or("").to_string();
+            let tag = tags.iter().find(|(n, _)| *n == name).ok_or_else(|| format!("cmd.rs PutLocalRecord: unknown kind `{alt}`"))?.1;
+            table.push((tag, out));
+        }
+    }
+    table.sort();
+    if table.len() != tags.len() {
+        return Err(format!("cmd.rs PutLocalRecord: {} kinds handled, RecordKind has {}", table.len(), tags.len()));
+    }
+    let table_lean = table.iter().map(|(t, o)| format!("({t}, {})", match o { Some(c) => format!("some {c}"), None => "none".into() })).collect::<Vec<_>>().join(", ");
+
     // feature chain: ant-node default ∋ encrypt-records → ant-networking/encrypt-records
     let node = features(&repo.join("ant-node/Cargo.toml"))?;
     let netw = features(&repo.join("ant-networking/Cargo.toml"))?;
@@ -443,7 +560,7 @@ pub fn generate(repo: &PathBuf) -> Result<String, String> {
     let netw_default_on = netw.iter().find(|(n, _)| n == "default").map(|(_, e)| e.iter().any(|x| x == "encrypt-records")).unwrap_or(false);
     let shipped = netw_has && (netw_default_on || node_default.iter().any(|f| forwards(f)));
 
-    let mut s = header(&format!("{rel}, ant-node/Cargo.toml, ant-networking/Cargo.toml"));
+    let mut s = header(&format!("{rel}, ant-networking/src/lib.rs, ant-networking/src/cmd.rs, ant-protocol/src/storage/header.rs, ant-node/Cargo.toml, ant-networking/Cargo.toml"));
     s.push_str("namespace SafeNet.Gen.Store\n");
     s.push_str(&format!("/-- `MAX_RECORDS_COUNT` -/\ndef maxRecordsCount : Nat := {max_records}\n"));
     s.push_str(&format!("/-- `MAX_RECORDS_CACHE_SIZE` -/\ndef maxRecordsCacheSize : Nat := {cache_size}\n"));
@@ -461,6 +578,9 @@ pub fn generate(repo: &PathBuf) -> Result<String, String> {
     s.push_str(&format!("/-- `generate_filename` is the hex of the whole key (no slicing / truncation) -/\ndef fileNameIsFullHex : Bool := {}\n", lean_bool(name_full_hex)));
     s.push_str(&format!("/-- `get_data_from_filename` (start-up scan) accepts every hex name: no length or other filter -/\ndef scanAcceptsEveryHexName : Bool := {}\n", lean_bool(name_unfiltered)));
     s.push_str(&format!("/-- `RecordStore::put` refuses `len >= max_value_bytes` (otherwise `>`); `put_verified` has no size test -/\ndef putSizeInclusive : Bool := {}\n", lean_bool(put_inclusive)));
+    s.push_str(&format!("/-- `get_record_from_bytes`: a decryption failure yields no record (`None`) — otherwise the raw file bytes are handed back -/\ndef decryptFailureSkips : Bool := {}\n", lean_bool(decrypt_failure_skips)));
+    s.push_str(&format!("/-- `send_local_swarm_cmd` spawns a task that awaits room on the command channel (otherwise `try_send`: dropped when full) -/\ndef notificationSenderWaits : Bool := {}\n", lean_bool(notification_sender_waits)));
+    s.push_str(&format!("/-- `PutLocalRecord` handler (cmd.rs): wire tag of the record kind ↦ 0 Chunk | 1 Scratchpad | 2 NonChunk(content hash); `none` = refused -/\ndef localPutTable : List (Nat × Option Nat) := [{table_lean}]\n"));
     s.push_str("end SafeNet.Gen.Store\n");
     Ok(s)
 }
